@@ -50,7 +50,7 @@ Definition base_bounds_okb (T : nty) (b lo hi : Z) : bool :=
 
 (* M = ty_hi T + 1: in_range T z  <->  (signed: -M <= z < M | unsigned: 0 <= z < M) *)
 Lemma range_M T z : ty_ok T -> let M := ty_hi T + 1 in
-  0 < M /\ (in_range T z <-> (if nsigned T then - M <= z < M else 0 <= z < M)).
+  2 <= M /\ (in_range T z <-> (if nsigned T then - M <= z < M else 0 <= z < M)).
 Proof.
   destruct T as [k s d]. intros [Hk _] M. cbn [nbytes nsigned] in *. subst M. pose proof (Hb_pos k ltac:(lia)).
   unfold in_range. destruct s; [rewrite ty_lo_s, ty_hi_s | rewrite ty_lo_u, ty_hi_u by lia]; split; lia.
@@ -65,7 +65,7 @@ Proof.
   assert (NF' : ~ in_range T (a ^ (r + 1))) by (rewrite <- in_rangeb_iff; congruence).
   apply in_rangeb_iff in F.
   set (M := ty_hi T + 1).
-  assert (RM : forall z, 0 < M /\ (in_range T z <-> (if nsigned T then - M <= z < M else 0 <= z < M)))
+  assert (RM : forall z, 2 <= M /\ (in_range T z <-> (if nsigned T then - M <= z < M else 0 <= z < M)))
     by (intros z; apply range_M; exact OkT).
   destruct (RM 0) as [HM _].
   set (A := Z.abs a). assert (HA : 2 <= A) by (unfold A; lia).
@@ -102,7 +102,7 @@ Proof.
   apply in_rangeb_iff in Fh.
   assert (NFh' : ~ in_range T ((hi + 1) ^ b)) by (rewrite <- in_rangeb_iff; congruence).
   set (M := ty_hi T + 1).
-  assert (RM : forall z, 0 < M /\ (in_range T z <-> (if nsigned T then - M <= z < M else 0 <= z < M)))
+  assert (RM : forall z, 2 <= M /\ (in_range T z <-> (if nsigned T then - M <= z < M else 0 <= z < M)))
     by (intros z; apply range_M; exact OkT).
   destruct (RM 0) as [HM _].
   assert (Hhi : hi ^ b < M) by (apply (RM (hi ^ b)) in Fh; destruct (nsigned T); lia).
